@@ -196,6 +196,33 @@ func (w *World) OnStuck(out *vs.Outcome) []string {
 	if lost > 0 {
 		viol = append(viol, fmt.Sprintf("C05: the processor is stuck for good and %d of %d items of accepted requests (Consume returned nil) were never passed on, e.g. %s", lost, accepted, first))
 	}
+	// C09: items sit in the processor for good while no export call is in flight: whatever
+	// keeps them there, it is not the concurrency limit holding exports back
+	{
+		inflight := 0
+		for _, e := range w.exports {
+			if !e.Done {
+				inflight++
+			}
+		}
+		held := 0
+		for _, c := range w.callers {
+			for _, rs := range c.Reqs {
+				if !(rs.Sent || (rs.Started && !rs.Returned && c.Thread != nil && c.Thread.Sends > c.sendsBase)) {
+					continue
+				}
+				for _, id := range rs.IDs {
+					if len(d[id]) == 0 {
+						held++
+					}
+				}
+			}
+		}
+		oracleEvals["C09_stuck_states_judged"]++
+		if held > 0 && inflight == 0 {
+			viol = append(viol, fmt.Sprintf("C09: the processor is stuck for good with %d accepted item(s) never exported while no export call is in flight (no deadline can be met)", held))
+		}
+	}
 	// C18: one caller's context ended, and items submitted under a different, live
 	// context will never be exported (skipped)
 	var ended *CallerState
